@@ -8,6 +8,7 @@ package main
 import (
 	"fmt"
 	"path/filepath"
+	"strconv"
 	"strings"
 
 	"verifharness/internal/rng"
@@ -163,6 +164,14 @@ func (g *gen) boundaryInt(lo, hi int64) int64 {
 	return lo
 }
 
+// zeroPadded spells v in decimal with n leading zeros (010 is ten, -0100 is minus one hundred).
+func zeroPadded(v int64, n int) string {
+	if v < 0 {
+		return "-" + strings.Repeat("0", n) + strconv.FormatUint(uint64(-(v+1))+1, 10)
+	}
+	return strings.Repeat("0", n) + strconv.FormatInt(v, 10)
+}
+
 func (g *gen) intLit(v int64) *CV {
 	c := &CV{Kind: 'i', I: v}
 	if g.cfg.numeric {
@@ -173,6 +182,8 @@ func (g *gen) intLit(v int64) *CV {
 			c.Lit = fmt.Sprintf("+%d", v)
 		case v >= 0 && g.r.Chance(1, 10):
 			c.Lit = fmt.Sprintf("0x%X", v)
+		case g.r.Chance(1, 8):
+			c.Lit = zeroPadded(v, 1+g.r.Intn(3)) // decimal with leading zeros is still decimal
 		}
 	}
 	return c
@@ -389,6 +400,8 @@ func (g *gen) build() *Prog {
 						it.Val = i64p(g.boundaryInt(-2147483648, 2147483647-3))
 						if *it.Val >= 0 && r.Chance(1, 4) {
 							it.Lit = fmt.Sprintf("0x%x", *it.Val)
+						} else if r.Chance(1, 8) {
+							it.Lit = zeroPadded(*it.Val, 1+r.Intn(3))
 						}
 					} else {
 						it.Val = i64p(int64(r.Intn(20)))
